@@ -316,7 +316,12 @@ fn run_case(case: &J) -> J {
             out.terms.push(format!("CText {} {} {} {}", cs(text), rt, st, float_table(text)));
             let cls = match &r {
                 Ok(_) => "text/accepted".to_string(),
-                Err(e) => format!("text/rejected/{:?}", e.classify()),
+                Err(e) => {
+                    // the error kind: serde_json's message without its position
+                    let msg = e.to_string();
+                    let kind = msg.split(" at line").next().unwrap_or("").to_string();
+                    format!("text/rejected/{}", kind)
+                }
             };
             out.classes.push(cls.clone());
             out.infos.push(serde_json::json!({"kind": "text", "class": cls, "error": r.as_ref().err().map(|e| e.to_string())}));
